@@ -331,7 +331,16 @@ def check_file(src, deep=True):
             except Exception as e:
                 d1 = {"exc": vlib.exc_sig(e)}
             d0 = strip_times(lr.to_dict())
-            if d0 != d1:
+
+            def norm(d):
+                # the loop text is re-generated from a re-parse of itself: pycparser's generator is not idempotent on
+                # labelled empty statements (`L: ;` gains a `;` at every round trip), so the text is compared modulo
+                # white space and empty statements; everything else (variables, flags, bounds, choices) exactly
+                if isinstance(d, dict) and isinstance(d.get("loop_code"), str):
+                    d = dict(d)
+                    d["loop_code"] = "".join(d["loop_code"].split()).replace(";;", ";").replace(";;", ";").replace("{;", "{").replace(";}", "}")
+                return d
+            if norm(d0) != norm(d1):
                 fail("alone: a loop's result differs from the result of the loop analysed as the whole program", ["alone"], d1, d0,
                      {"loop": code})
                 return fails, info
